@@ -1,188 +1,706 @@
-"""C10 -- the trust-region step solver returns the regularised least-squares minimiser (thin structural clauses N1..N4).
+"""C10 -- the trust-region step solver returns the regularised least-squares minimiser (structural clauses N1..N5).
 
-The solver is three statements of linear algebra.  They are abstracted into a symbolic operator normal form and compared
-with the normal equations (J'J + lambda D'D) dx = -J'r and with the derivative of phi(lambda) = |D dx(lambda)|:
-  H x = -J'r  =>  D^2 x + H x' = 0  =>  x' = -H^-1 D^2 x ,  phi' = <D x, D x'> / |D x| = -<D^2 x, H^-1 D^2 x> / |D x|.
+The solver is a handful of statements of linear algebra.  They are abstractly interpreted in a *symbolic operator algebra*:
+matrices are linear combinations (coefficients polynomial in lambda) of words over {J, J', D = diag(d), Hinv}, vectors are such
+words applied to r, scalars are bilinear forms <u, v> canonicalised under transposition (D, Hinv symmetric), optionally divided
+by norms.  `Hinv` is only introduced when a factorisation object was constructed from a matrix whose normal form is exactly
+H = J'J + lambda D D.  The results are compared with
+
+  N1  the factorised matrix is H = J'J + lambda D^2                         (normal equations (J'J + lambda D'D) dx = -J'r)
+  N2  the returned step is Hinv (-J' r) on every path (dense and sparse J)
+  N3  dphi = d/dlambda |D dx(lambda)|:  H x = -J'r  =>  D^2 x + H x' = 0  =>  x' = -Hinv D^2 x ,
+        phi' = <D x, D x'> / |D x| = -<D^2 x, Hinv D^2 x> / |D x|
+  N4  solve_trust_region: lambda = 1/Delta and the pair {solve_linear_ldlt(J, d, r, lambda), lambda}
+  N5  colwise_norm: the sparse branch accumulates value^2 into the entry of the iterator's *column* (independent of the
+      storage order) and takes the square root; the dense branch is the column-wise norm.
+
+Because the comparison is on normal forms, renaming, re-association, J.adjoint() for J.transpose(), moving signs and
+introducing temporaries are all invisible; an expression outside the algebra is analysis-broken (exit 2), not a violation.
 """
-import re
+from fractions import Fraction
 
 import astlib as A
 import fe
 import pe
 from report import Finding
 
+SYM = {"J": "Jt", "Jt": "J", "D": "D", "Hinv": "Hinv", "D?": "D?", "Linv": "Linvt", "Linvt": "Linv", "P": "Pt", "Pt": "P", "Laminv": "Laminv"}
+# Eigen's (Simplicial)LDLT: H = P' L Lam L' P, hence Hinv = P' L'^-1 Lam^-1 L^-1 P; P P' = I
+HINV_FACTORS = ("Pt", "Linvt", "Laminv", "Linv", "P")
 
-class V:
-    """vector in normal form: sign * (word of operators) applied to x, optionally divided by |(norm word) x|"""
 
-    def __init__(self, sign, ops, norm=None):
-        self.sign, self.ops, self.norm = sign, tuple(ops), norm
+def canon(w):
+    """expand Hinv into the factors of the decomposition and cancel P P' pairs"""
+    out = []
+    for s_ in w:
+        for x in (HINV_FACTORS if s_ == "Hinv" else (s_,)):
+            if out and (out[-1], x) in (("P", "Pt"), ("Pt", "P")):
+                out.pop()
+            else:
+                out.append(x)
+    return tuple(out)
+
+
+class Unab(Exception):
+    pass
+
+
+def pmul(a, b):
+    out = {}
+    for i, x in a.items():
+        for j, y in b.items():
+            out[i + j] = out.get(i + j, 0) + x * y
+    return {k: v for k, v in out.items() if v != 0}
+
+
+def padd(a, b, s=1):
+    out = dict(a)
+    for k, v in b.items():
+        out[k] = out.get(k, 0) + s * v
+    return {k: v for k, v in out.items() if v != 0}
+
+
+ONE = {0: Fraction(1)}
+LAM = {1: Fraction(1)}
+
+
+def pkey(p):
+    return tuple(sorted(p.items()))
+
+
+class Lin:
+    """linear combination of words; kind 'mat' (operator words) or 'vec' (operator words applied to r)"""
+
+    def __init__(self, kind, terms=None):
+        self.kind = kind
+        self.t = {w: c for w, c in (terms or {}).items() if c}
+
+    def scale(self, c):
+        return Lin(self.kind, {w: pmul(k, c) for w, k in self.t.items()})
+
+    def add(self, o, s=1):
+        if o.kind != self.kind:
+            raise Unab("sum of a %s and a %s" % (self.kind, o.kind))
+        out = dict(self.t)
+        for w, k in o.t.items():
+            out[w] = padd(out.get(w, {}), k, s)
+        return Lin(self.kind, out)
+
+    def transpose(self):
+        if self.kind != "mat":
+            raise Unab("transpose of a vector")
+        return Lin("mat", {tuple(SYM[s] for s in reversed(w)): k for w, k in self.t.items()})
+
+    def mul(self, o):
+        if self.kind != "mat":
+            raise Unab("vector on the left of a product")
+        out = {}
+        for w1, k1 in self.t.items():
+            for w2, k2 in o.t.items():
+                out[w1 + w2] = padd(out.get(w1 + w2, {}), pmul(k1, k2))
+        return Lin(o.kind, out)
 
     def key(self):
-        return (self.sign, self.ops, self.norm)
+        acc = {}
+        for w, k in self.t.items():
+            acc[canon(w)] = padd(acc.get(canon(w), {}), k)
+        return (self.kind, tuple(sorted((w, pkey(k)) for w, k in acc.items() if k)))
+
+    def show(self):
+        def c(k):
+            return "+".join(("%s" % v if p == 0 else "%s*lambda%s" % (v, "" if p == 1 else "^%d" % p)) for p, v in sorted(k.items()))
+        return " + ".join("(%s) %s%s" % (c(k), " ".join(w) or "I", " r" if self.kind == "vec" else "") for w, k in sorted(self.t.items())) or "0"
+
+
+def bilinear(u, v):
+    """<u, v> for vectors: canonical dict {word: coeff} with word ~ its transposed reverse"""
+    out = {}
+    for w1, k1 in u.t.items():
+        for w2, k2 in v.t.items():
+            w = canon(tuple(SYM[s] for s in reversed(w1)) + w2)
+            wt = tuple(SYM[s] for s in reversed(w))
+            w = min(w, wt)
+            out[w] = padd(out.get(w, {}), pmul(k1, k2))
+    return {w: k for w, k in out.items() if k}
+
+
+def wshow(w):
+    """display form of a word: fold the factor sequence of the decomposition back into Hinv"""
+    w = list(w)
+    out = []
+    i = 0
+    n = len(HINV_FACTORS)
+    while i < len(w):
+        if tuple(w[i:i + n]) == HINV_FACTORS:
+            out.append("Hinv")
+            i += n
+        else:
+            out.append(w[i])
+            i += 1
+    return " ".join(out) or "I"
+
+
+def cshow(k):
+    return "+".join(("%s" % v if p_ == 0 else "%s*lambda%s" % (v, "" if p_ == 1 else "^%d" % p_)) for p_, v in sorted(k.items()))
+
+
+class Scal:
+    """numerator bilinear form / product of norms (each a quadratic form)"""
+
+    def __init__(self, num, dens=()):
+        self.num = num
+        self.dens = tuple(sorted(dens))
+
+    def key(self):
+        return (tuple(sorted((w, pkey(k)) for w, k in self.num.items())), self.dens)
+
+    def show(self):
+        n = " + ".join("(%s) <r, %s r>" % (cshow(k), wshow(w)) for w, k in sorted(self.num.items())) or "0"
+        return n + "".join(" / sqrt(%s)" % " + ".join("(%s) <r, %s r>" % (cshow(dict(k)), wshow(w)) for w, k in d) for d in self.dens)
+
+
+class NVec:
+    """vector `num` divided by the norm of vector `den` (v.normalized() has num = den = v; D (v/|v|) = (D v)/|v|)"""
+
+    def __init__(self, num, den):
+        self.num, self.den = num, den
+
+
+H_EXPECTED = Lin("mat", {("Jt", "J"): ONE, ("D", "D"): LAM})
+X_EXPECTED = Lin("vec", {("Hinv", "Jt"): {0: Fraction(-1)}})
+
+
+def qform_key(lin):
+    return tuple(sorted((w, pkey(k)) for w, k in bilinear(lin, lin).items()))
+
+
+class Interp:
+    """abstract interpreter of solve_linear_ldlt's statements"""
+
+    def __init__(self, params):
+        self.J, self.d, self.r, self.lam = params[0], params[1], params[2], params[3]
+        self.dphi_name = params[4] if len(params) > 4 else None
+        self.env = {}
+        self.fact = {}         # factorisation variable -> Lin of the matrix it was built from
+        self.dphi = None
+        self.ret = None
+        self.notes = []
+
+    def ev(self, e):
+        t = e[0]
+        if t == "ref":
+            n = e[1]
+            if n in self.env:
+                if isinstance(self.env[n], tuple) and self.env[n] and self.env[n][0] == "unknown":
+                    raise Unab(self.env[n][1])
+                return self.env[n]
+            if n == self.J:
+                return Lin("mat", {("J",): ONE})
+            if n == self.r:
+                return Lin("vec", {(): ONE})
+            if n == self.lam:
+                return ("scalar", LAM)
+            if n == self.d:
+                return ("dvec",)
+            raise Unab("name %s" % n)
+        if t == "num":
+            return ("scalar", {0: Fraction(e[1])})
+        if t == "neg":
+            return self.neg(self.ev(e[1]))
+        if t == "ctor" and len(e[2]) == 1:
+            return self.ev(e[2][0])
+        if t == "mcall":
+            obj, meth, args = e[1], e[2], e[4]
+            if meth in ("transpose", "adjoint") and not args:
+                v = self.ev(obj)
+                if isinstance(v, Lin):
+                    return v.transpose()
+                raise Unab("transpose of %s" % (v,))
+            if meth in ("eval", "noalias", "derived", "matrix", "array") and not args:
+                return self.ev(obj)
+            if meth == "asDiagonal" and not args:
+                v = self.ev(obj)
+                if v == ("dvec",):
+                    return Lin("mat", {("D",): ONE})
+                raise Unab("asDiagonal of a vector other than d")
+            if meth == "cwiseProduct" and len(args) == 1:
+                a, b = self.ev(obj), self.ev(args[0])
+                if b == ("dvec",):
+                    a, b = b, a
+                if a == ("dvec",) and isinstance(b, Lin) and b.kind == "vec":
+                    return Lin("mat", {("D",): ONE}).mul(b)
+                if a == ("dvec",) and isinstance(b, NVec):
+                    return NVec(Lin("mat", {("D",): ONE}).mul(b.num), b.den)
+                raise Unab("cwiseProduct of %s and %s" % (A.show(obj)[:20], A.show(args[0])[:20]))
+            if meth == "solve" and len(args) == 1 and obj[0] == "ref" and obj[1] in self.fact:
+                b = self.ev(args[0])
+                if not isinstance(b, Lin):
+                    raise Unab("solve of a non-linear right-hand side")
+                if self.fact[obj[1]].key() != H_EXPECTED.key():
+                    sym = "inv[%s]" % self.fact[obj[1]].show()
+                    SYM.setdefault(sym, sym)
+                    return Lin("mat", {(sym,): ONE}).mul(b)
+                return Lin("mat", {("Hinv",): ONE}).mul(b)
+            if meth == "solve" and len(args) == 1 and obj[0] == "mcall" and obj[1][0] == "ref" and obj[1][1] in self.fact and obj[2] in ("matrixL", "matrixU"):
+                b = self.ev(args[0])
+                if not (isinstance(b, Lin) and b.kind == "vec") or self.fact[obj[1][1]].key() != H_EXPECTED.key():
+                    raise Unab("triangular solve %s" % A.show(e)[:50])
+                return Lin("mat", {("Linv" if obj[2] == "matrixL" else "Linvt",): ONE}).mul(b)
+            if meth in ("transpositionsP", "permutationP") and not args and obj[0] == "ref" and obj[1] in self.fact:
+                return Lin("mat", {("P",): ONE})
+            if meth == "vectorD" and not args and obj[0] == "ref" and obj[1] in self.fact:
+                return ("lamvec",)
+            if meth == "cwiseAbs2" and not args:
+                v = self.ev(obj)
+                if isinstance(v, Lin) and v.kind == "vec":
+                    return ("abs2", v, v)
+                raise Unab("cwiseAbs2 of a non-vector")
+            if meth == "cwiseQuotient" and len(args) == 1:
+                a, b = self.ev(obj), self.ev(args[0])
+                if b == ("lamvec",) and isinstance(a, Lin) and a.kind == "vec":
+                    return Lin("mat", {("Laminv",): ONE}).mul(a)
+                if b == ("lamvec",) and isinstance(a, tuple) and a[0] == "abs2":
+                    return ("abs2", a[1], Lin("mat", {("Laminv",): ONE}).mul(a[2]))
+                raise Unab("cwiseQuotient %s" % A.show(e)[:50])
+            if meth == "sum" and not args:
+                v = self.ev(obj)
+                if isinstance(v, tuple) and v[0] == "abs2":
+                    return Scal(bilinear(v[1], v[2]), ())
+                raise Unab("sum of %s" % A.show(obj)[:40])
+            if meth == "squaredNorm" and not args:
+                v = self.ev(obj)
+                if isinstance(v, Lin) and v.kind == "vec":
+                    return Scal(bilinear(v, v), ())
+                raise Unab("squaredNorm of a non-vector")
+            if meth == "normalized" and not args:
+                v = self.ev(obj)
+                if isinstance(v, Lin) and v.kind == "vec":
+                    return NVec(v, v)
+                raise Unab("normalized() of %s" % A.show(obj)[:30])
+            if meth == "dot" and len(args) == 1:
+                return self.dot(self.ev(obj), self.ev(args[0]))
+            if meth == "norm" and not args:
+                v = self.ev(obj)
+                if isinstance(v, Lin) and v.kind == "vec":
+                    return ("norm", v)
+                raise Unab("norm of %s" % A.show(obj)[:30])
+            raise Unab("member call %s" % meth)
+        if t == "op" and e[1] in ("*", "+", "-", "/"):
+            a, b = self.ev(e[2]), self.ev(e[3])
+            if e[1] == "*":
+                return self.mul(a, b)
+            if e[1] == "/":
+                if isinstance(b, tuple) and b[0] == "norm" and isinstance(a, Lin) and a.kind == "vec":
+                    return NVec(a, b[1])
+                if isinstance(b, tuple) and b[0] == "norm" and isinstance(a, Scal):
+                    return Scal(a.num, a.dens + (qform_key(b[1]),))
+                if isinstance(b, tuple) and b[0] == "scalar" and set(b[1]) == {0}:
+                    return self.mul(("scalar", {0: 1 / b[1][0]}), a)
+                raise Unab("division %s" % A.show(e)[:50])
+            if isinstance(a, Lin) and isinstance(b, Lin):
+                return a.add(b, 1 if e[1] == "+" else -1)
+            raise Unab("sum %s" % A.show(e)[:50])
+        raise Unab("expression %s" % A.show(e)[:60])
+
+    def neg(self, v):
+        if isinstance(v, Lin):
+            return v.scale({0: Fraction(-1)})
+        if isinstance(v, NVec):
+            return NVec(v.num.scale({0: Fraction(-1)}), v.den)
+        if isinstance(v, Scal):
+            return Scal({w: pmul(k, {0: Fraction(-1)}) for w, k in v.num.items()}, v.dens)
+        if isinstance(v, tuple) and v[0] == "scalar":
+            return ("scalar", pmul(v[1], {0: Fraction(-1)}))
+        raise Unab("negation of %s" % (v,))
+
+    def mul(self, a, b):
+        if isinstance(a, tuple) and a[0] == "scalar":
+            a, b = b, a
+        if isinstance(b, tuple) and b[0] == "scalar":
+            if isinstance(a, Lin):
+                return a.scale(b[1])
+            if isinstance(a, tuple) and a[0] == "scalar":
+                return ("scalar", pmul(a[1], b[1]))
+            if isinstance(a, Scal):
+                return Scal({w: pmul(k, b[1]) for w, k in a.num.items()}, a.dens)
+            if isinstance(a, NVec):
+                return NVec(a.num.scale(b[1]), a.den)
+            raise Unab("scalar product with %s" % (a,))
+        if isinstance(a, Lin) and a.kind == "mat":
+            if isinstance(b, Lin):
+                return a.mul(b)
+            if isinstance(b, NVec):
+                return NVec(a.mul(b.num), b.den)
+        raise Unab("product")
+
+    @staticmethod
+    def _unab(m):
+        raise Unab(m)
+
+    def dot(self, a, b):
+        dens = ()
+        if isinstance(a, NVec):
+            dens += (qform_key(a.den),)
+            a = a.num
+        if isinstance(b, NVec):
+            dens += (qform_key(b.den),)
+            b = b.num
+        if not (isinstance(a, Lin) and isinstance(b, Lin) and a.kind == b.kind == "vec"):
+            raise Unab("dot of non-vectors")
+        return Scal(bilinear(a, b), dens)
+
+
+def expected_dphi():
+    x = X_EXPECTED
+    D = Lin("mat", {("D",): ONE})
+    Hi = Lin("mat", {("Hinv",): ONE})
+    ddx = D.mul(D.mul(x))
+    num = bilinear(ddx, Hi.mul(ddx))
+    num = {w: pmul(k, {0: Fraction(-1)}) for w, k in num.items()}
+    return Scal(num, (qform_key(D.mul(x)),))
+
+
+def interpret(fn, rep):
+    """returns (Interp, list of (path label, returned Lin), problems)"""
+    ps = [p.get("name") for p in A.params(fn.node)]
+    if len(ps) < 4:
+        raise Unab("solve_linear_ldlt has %d parameters" % len(ps))
+    results = []
+
+    def run_block(I, stmts, label):
+        for i, s in enumerate(stmts):
+            k = s.get("kind")
+            if k == "DeclStmt":
+                for v in A.kids(s):
+                    if v.get("kind") != "VarDecl":
+                        continue
+                    nm = v.get("name")
+                    ty = v.get("type", {}).get("qualType", "")
+                    ks = A.kids(v)
+                    if not ks:
+                        continue
+                    init = A.to_expr(ks[-1])
+                    if "LDLT" in ty or "LLT" in ty or "LU" in ty or "QR" in ty:
+                        arg = init
+                        if arg[0] == "ctor" and len(arg[2]) == 1:
+                            arg = arg[2][0]
+                        elif arg[0] == "init" and len(arg[1]) == 1:
+                            arg = arg[1][0]
+                        m = I.ev(arg)
+                        if not (isinstance(m, Lin) and m.kind == "mat"):
+                            raise Unab("factorisation of a non-matrix")
+                        I.fact[nm] = m
+                        I.fact_node = v
+                        continue
+                    try:
+                        I.env[nm] = I.ev(init)
+                    except Unab as ex_:
+                        # compile-time constants / flags are irrelevant to the algebra; a later use re-raises the reason
+                        I.env[nm] = ("unknown", "local %s = %s: %s" % (nm, A.show(init)[:40], ex_))
+            elif k == "ForStmt":
+                diag_loop(I, s)
+            elif k == "IfStmt":
+                ks = A.kids(s)
+                c = A.to_expr(ks[0])
+                ctext = A.ntext(ks[0])
+                if c[0] == "mcall" and c[2] == "has_value" or (I.dphi_name and I.dphi_name in ctext and "sparse" not in ctext):
+                    run_block(I, block_stmts(ks[1]), label)
+                    continue
+                if "sparse" in ctext.lower():
+                    neg = ctext.startswith("!")
+                    I.saw_sparse = True
+                    take_then = I.sparse != neg
+                    if take_then:
+                        run_block(I, block_stmts(ks[1]), label)
+                    elif len(ks) > 2:
+                        run_block(I, block_stmts(ks[2]), label)
+                    if I.ret is not None:
+                        return
+                    continue
+                raise Unab("condition %s" % ctext[:60])
+            elif k == "ReturnStmt":
+                v = I.ev(A.to_expr(A.kids(s)[0]))
+                I.ret = v
+                results.append(("/".join(label) or "all", v, I, s))
+                return
+            elif k in ("BinaryOperator", "CXXOperatorCallExpr", "CompoundAssignOperator", "ExprWithCleanups"):
+                e = A.to_expr(s)
+                if e[0] == "op" and e[1] == "=" and I.dphi_name and I.dphi_name in A.show(e[2]):
+                    I.dphi = (I.ev(e[3]), s)
+                elif e[0] == "op" and e[1] in ("=", "+=", "-=") and e[2][0] == "ref" and e[2][1] in I.env:
+                    v = I.ev(e[3])
+                    cur = I.env[e[2][1]]
+                    I.env[e[2][1]] = v if e[1] == "=" else cur.add(v, 1 if e[1] == "+=" else -1)
+                else:
+                    raise Unab("statement %s" % A.show(e)[:60])
+            elif k in ("NullStmt", "CompoundStmt") or k is None:
+                if k == "CompoundStmt":
+                    run_block(I, A.kids(s), label)
+            elif k in ("TypeAliasDecl", "StaticAssertDecl", "UsingDirectiveDecl"):
+                continue
+            else:
+                raise Unab("statement kind %s" % k)
+
+    def block_stmts(n):
+        return A.kids(n) if n.get("kind") == "CompoundStmt" else [n]
+
+    def diag_loop(I, loop):
+        ks = A.kids(loop)
+        var = next((v.get("name") for v in A.kids(ks[0]) if v.get("kind") == "VarDecl"), None) if ks[0] is not None and ks[0].get("kind") == "DeclStmt" else None
+        init = next((A.to_expr(A.kids(v)[-1]) for v in A.kids(ks[0]) if v.get("kind") == "VarDecl" and A.kids(v)), None) if var else None
+        cond = A.to_expr(ks[2]) if ks[2] is not None else None
+        inc = A.ntext(ks[3]) if ks[3] is not None else ""
+        if var is None or cond is None:
+            raise Unab("loop without a counter")
+        upd = [A.to_expr(y) for y in A.walk(ks[4]) if y.get("kind") in ("CompoundAssignOperator", "CXXOperatorCallExpr", "BinaryOperator")]
+        upd = [e for e in upd if e[0] == "op" and e[1] in ("+=", "=", "-=")]
+        if len(upd) != 1:
+            raise Unab("loop with %d updates" % len(upd))
+        e = upd[0]
+        tgt = e[2]
+        if tgt[0] == "mcall" and tgt[2] == "valueRef" and not tgt[4]:
+            its = [v for v in A.walk(loop) if v.get("kind") == "VarDecl" and "InnerIterator" in v.get("type", {}).get("qualType", "")]
+            if its and tgt[1][0] == "ref" and tgt[1][1] == its[0].get("name"):
+                itinit = A.show(A.to_expr(A.kids(its[0])[-1])) if A.kids(its[0]) else ""
+                mats = [n_ for n_ in I.env if isinstance(I.env[n_], Lin) and I.env[n_].kind == "mat" and n_ in itinit]
+                if len(mats) == 1:
+                    I.diag_problem = ("the diagonal of %s is updated through an iterator over its *stored* entries (`%s %s ...`): a diagonal entry that is "
+                                      "structurally absent (J'J of a sparse J with an empty column) is never regularised" % (mats[0], A.show(tgt), e[1]), loop)
+                    I.env[mats[0]] = I.env[mats[0]].add(Lin("mat", {("D?",): ONE}))
+                    return
+        if tgt[0] == "mcall" and tgt[2] in ("coeffRef", "operator()") and tgt[1][0] == "ref" and tgt[1][1] in I.env and len(tgt[4]) == 2:
+            m, ij = tgt[1][1], tgt[4]
+        elif tgt[0] == "call" and tgt[1] in I.env and len(tgt[2]) == 2:
+            m, ij = tgt[1], tgt[2]
+        else:
+            raise Unab("loop update target %s" % A.show(tgt)[:40])
+        on_diag = all(a[0] == "ref" and a[1] == var for a in ij)
+        if e[1] != "+=":
+            raise Unab("diagonal entries are overwritten, not incremented")
+        # value as a polynomial in lambda and d_i: identify c * lambda^p * d_i^q by exact evaluation at several points
+        dn, ln = I.d, I.lam
+
+        def val(lam, dv):
+            return pe.ev(e[3], {ln: lam, "%s(%s)" % (dn, var): dv, "%s[%s]" % (dn, var): dv, "%s.coeff(%s)" % (dn, var): dv})
+        try:
+            pts = {(l_, d_): val(l_, d_) for l_ in (2, 3, 5) for d_ in (3, 5, 7)}
+        except pe.PEError as ex:
+            raise Unab("diagonal increment %s: %s" % (A.show(e[3])[:40], ex))
+        is_lam_d2 = all(v == l_ * d_ * d_ for (l_, d_), v in pts.items())
+        # range: 0 .. N-1 with unit stride
+        full = (init == ("num", 0) and cond[0] == "op" and cond[1] in ("<", "!=") and cond[2][0] == "ref" and cond[2][1] == var
+                and (inc.replace(" ", "") in ("++" + var, var + "++", var + "+=1")))
+        bound = A.ntext_expr(cond[3]) if hasattr(A, "ntext_expr") else A.show(cond[3]).replace(" ", "")
+        okb = bound in ("%s.rows()" % m, "%s.cols()" % m, "%s.size()" % dn, "%s.cols()" % I.J, "%s.rows()" % dn, "N")
+        if not okb:
+            raise Unab("loop bound %s is not the number of variables" % bound)
+        if on_diag and is_lam_d2 and full:
+            I.env[m] = I.env[m].add(Lin("mat", {("D", "D"): LAM}))
+            return
+        I.diag_problem = ("the diagonal update of %s is `%s %s %s` over %s <= %s < %s (diagonal entry: %s, full range: %s, value lambda*d_i^2: %s)"
+                          % (m, A.show(tgt)[:30], e[1], A.show(e[3])[:40], A.show(init)[:10] if init else "?", var, bound, on_diag, full, is_lam_d2), loop)
+        # the matrix is then NOT the regularised normal matrix: mark it with an extra symbol so that N1 reports it
+        I.env[m] = I.env[m].add(Lin("mat", {("D?",): ONE}))
+
+    runs = []
+    for sparse in (False, True):
+        I = Interp(ps)
+        I.diag_problem = None
+        I.sparse = sparse
+        I.saw_sparse = False
+        run_block(I, A.kids(A.body(fn.node)), ["sparse J" if sparse else "dense J"])
+        runs.append(I)
+        if not I.saw_sparse:
+            break
+    if len(runs) == 1:
+        results[:] = [("all", v, Ip, n_) for _, v, Ip, n_ in results]
+    return runs, results
 
 
 def check(rep, tier, replay=None):
     rep.explanations.append(
-        "C10 (thin): N1 the factorised matrix is J'J with lambda*d_i^2 added to every diagonal entry; N2 the solution is the LDLT solve "
-        "of -J'r with that matrix, in one code path for dense and sparse J; N3 the optional output dphi equals, in a symbolic operator "
-        "normal form, the derivative of |D dx(lambda)| obtained by differentiating the normal equations; N4 solve_trust_region uses "
-        "lambda = 1/Delta and returns that solution together with lambda.  In exact arithmetic the minimiser property, equality of "
-        "dense and sparse results and |J dx + r| <= |r| follow; backward error and conditioning claims are numerical and NOT decided.")
+        "C10: solve_linear_ldlt / solve_trust_region are abstractly interpreted in a symbolic operator algebra (words over J, J', D, Hinv "
+        "with coefficients polynomial in lambda); the factorised matrix, the returned step and dphi are compared in normal form with the "
+        "normal equations and with the derivative of |D dx(lambda)| obtained by differentiating them.  In exact arithmetic the minimiser "
+        "property, equality of dense and sparse results and |J dx + r| <= |r| (dx minimises a functional whose value at 0 is |r|^2) follow; "
+        "backward error, conditioning and the behaviour of the factorisation on singular matrices are numerical and NOT decided.")
     rep.trusted.add("clang++-16 front end; Eigen's LDLT / SimplicialLDLT solve A x = b for the matrix they were constructed from")
     rep.assumptions.append("1e-8 backward error, 1e-6 dense/sparse agreement under conditioning <= 1e8 and rank-deficient inputs are not decided")
-    d = fe.ast_dumps(["solve_linear_ldlt", "solve_trust_region"])
-    rep.unit("umbrella TU filtered solve_linear_ldlt / solve_trust_region")
+    d = fe.ast_dumps(["solve_linear_ldlt", "solve_trust_region", "colwise_norm"])
+    rep.unit("umbrella TU filtered solve_linear_ldlt / solve_trust_region / colwise_norm")
     idx = A.index(d["solve_linear_ldlt"])
     fns = [x for x in idx if x.kind in A.FUNCS and x.pattern and x.qname.split("::")[-1] == "solve_linear_ldlt" and A.body(x.node) is not None]
+    rep.rule("N1", "factorised matrix is J'J + lambda * diag(d)^2")
+    rep.rule("N2", "dx = Hinv (-J'r) on every path (dense and sparse J)")
+    rep.rule("N3", "dphi == d/dlambda |D dx(lambda)| in operator normal form")
+    rep.rule("N4", "solve_trust_region: lambda = 1/Delta, returns {solve_linear_ldlt(J,d,r,lambda), lambda}")
+    rep.rule("N5", "colwise_norm: sparse branch indexes by the iterator's column, squares, takes the root; dense branch is colwise().norm()", minimum=2)
     if len(fns) != 1:
         rep.broke("solve_linear_ldlt not found (%d)" % len(fns))
         return
     fn = fns[0]
-    b = A.body(fn.node)
-    locs = {}
-    decl_nodes = {}
-    for x in A.walk(b):
-        if x.get("kind") == "VarDecl" and A.kids(x):
-            locs[x.get("name")] = A.to_expr(A.kids(x)[-1])
-            decl_nodes[x.get("name")] = x
+    try:
+        runs, results = interpret(fn, rep)
+    except Unab as ex:
+        rep.broke("solve_linear_ldlt is outside the operator algebra: %s" % ex)
+        check_n4(rep, d)
+        check_n5(rep, d)
+        return
+    # N1: every factorisation used is of H
+    for I in runs:
+        lab = "all" if len(runs) == 1 else ("sparse J" if I.sparse else "dense J")
+        for nm, m in sorted(I.fact.items()):
+            ok = m.key() == H_EXPECTED.key()
+            rep.instance("N1", "solve_linear_ldlt", "H (%s, %s)" % (nm, lab), ok=ok, sample={"file": fe.rel(fn.file), "line": fn.line, "normal_form": m.show()})
+            if not ok:
+                f, l = A.loc(I.diag_problem[1]) if I.diag_problem else (fn.file, fn.line)
+                rep.violation(Finding("N1", "solve_linear_ldlt", "H (%s)" % lab, "the matrix handed to the factorisation is %s, not J'J + lambda D D%s"
+                                      % (m.show().replace("D?", "<partial diagonal update>"), "; " + I.diag_problem[0] if I.diag_problem else ""), f, l))
+        if not I.fact:
+            rep.broke("N1: no factorisation object found in solve_linear_ldlt (%s)" % lab)
+    # N2
+    if not results:
+        rep.broke("N2: solve_linear_ldlt has no return on the interpreted paths")
+    for label, v, Ip, node in results:
+        ok = isinstance(v, Lin) and v.key() == X_EXPECTED.key()
+        rep.instance("N2", "solve_linear_ldlt", "dx (%s)" % label, ok=ok, sample={"normal_form": v.show() if isinstance(v, Lin) else str(v)})
+        if not ok:
+            f, l = A.loc(node)
+            rep.violation(Finding("N2", "solve_linear_ldlt", "dx (%s)" % label, "the returned step is %s; the regularised normal equations give %s"
+                                  % (v.show() if isinstance(v, Lin) else v, X_EXPECTED.show()), f, l))
+    # N3
+    want = expected_dphi()
+    dphis = [(lab, Ip.dphi) for lab, v, Ip, node in results]
+    if not any(dp for _, dp in dphis):
+        rep.broke("N3: no assignment to the optional output dphi found")
+    for lab, dp in dphis:
+        if dp is None:
+            rep.broke("N3: dphi is not assigned on path %s" % lab)
+            continue
+        got, node = dp
+        ok = isinstance(got, Scal) and got.key() == want.key()
+        rep.instance("N3", "solve_linear_ldlt", "dphi (%s)" % lab, ok=ok, sample={"normal_form": got.show() if isinstance(got, Scal) else str(got)})
+        if not ok:
+            f, l = A.loc(node)
+            rep.violation(Finding("N3", "solve_linear_ldlt", "dphi (%s)" % lab,
+                                  "dphi evaluates %s; the derivative of |D dx(lambda)| is -<D^2 x, Hinv D^2 x> / |D x| = %s"
+                                  % (got.show() if isinstance(got, Scal) else got, want.show()), f, l))
+    check_n4(rep, d)
+    check_n5(rep, d)
 
+
+def check_n4(rep, d):
     def norm(e):
-        return re.sub(r"\s", "", A.show(e))
-    # ---- N1
-    rep.rule("N1", "factorised matrix is J'J + lambda * diag(d)^2")
-    hname = next((n for n, e in locs.items() if norm(e) in ("(J.transpose()*J)",)), None)
-    okdiag = False
-    loop = None
-    if hname:
-        for x in A.kids(b):
-            if x.get("kind") == "ForStmt":
-                ks = A.kids(x)
-                var = next((v.get("name") for v in A.kids(ks[0]) if v.get("kind") == "VarDecl"), None) if ks[0].get("kind") == "DeclStmt" else None
-                cond = A.to_expr(ks[2])
-                full = (cond[0] == "op" and cond[1] == "<" and cond[2][0] == "ref" and cond[2][1] == var
-                        and norm(cond[3]) in ("%s.rows()" % hname, "%s.cols()" % hname) and locs.get(var, ("num", 1)) == ("num", 0))
-                for y in A.walk(ks[4]):
-                    if y.get("kind") in ("CompoundAssignOperator", "CXXOperatorCallExpr", "BinaryOperator"):
-                        e = A.to_expr(y)
-                        if e[0] == "op" and e[1] == "+=" and e[2][0] == "mcall" and e[2][2] == "coeffRef" and e[2][1][0] == "ref" and e[2][1][1] == hname:
-                            ij = e[2][4]
-                            try:
-                                val = pe.ev(e[3], {"lambda": 3, "d(%s)" % var: 5, "d[%s]" % var: 5})
-                            except pe.PEError:
-                                val = None
-                            okdiag = full and len(ij) == 2 and all(a[0] == "ref" and a[1] == var for a in ij) and val == 75
-                            loop = x
-    rep.instance("N1", "solve_linear_ldlt", "H", ok=bool(hname) and okdiag, sample={"file": fe.rel(fn.file), "line": fn.line, "H": hname})
-    if not (hname and okdiag):
-        f, l = A.loc(loop) if loop else (fn.file, fn.line)
-        rep.violation(Finding("N1", "solve_linear_ldlt", "H", "the matrix handed to the factorisation is not J'J with lambda*d(i)^2 added to every diagonal entry i < rows", f, l))
-    # ---- N2
-    rep.rule("N2", "dx = LDLT(J'J + lambda D^2).solve(-J'r), one path for dense and sparse J")
-    lname = None
-    for n, x in decl_nodes.items():
-        ty = x.get("type", {}).get("qualType", "")
-        if "LDLTt" in ty:
-            init = A.to_expr(A.kids(x)[-1])
-            if norm(init) in (hname or "?", "LDLTt(%s)" % hname, "%s" % hname):
-                lname = n
-    xname = None
-    for n, e in locs.items():
-        if e[0] == "mcall" and e[2] == "solve" and e[1][0] == "ref" and e[1][1] == lname and len(e[4]) == 1:
-            if norm(e[4][0]) in ("(-(J.transpose())*r)", "-((J.transpose()*r))", "(-(J.transpose()*r))"):
-                xname = n
-    rets = [x for x in A.walk_nolambda(b) if x.get("kind") == "ReturnStmt"]
-    okret = len(rets) == 1 and A.to_expr(A.kids(rets[0])[0]) == ("ref", xname, A.to_expr(A.kids(rets[0])[0])[2])
-    ifs_sparse = [x for x in A.walk(b) if x.get("kind") == "IfStmt" and "is_sparse" in A.ntext(A.kids(x)[0])]
-    ok2 = bool(lname and xname and okret) and not ifs_sparse
-    rep.instance("N2", "solve_linear_ldlt", "dx", ok=ok2, sample={"ldlt": lname, "dx": xname})
-    if not ok2:
-        rep.violation(Finding("N2", "solve_linear_ldlt", "dx", "the returned step is not ldlt(H).solve(-J' r) with the regularised normal matrix H "
-                              "(ldlt=%s, dx=%s, single return=%s, separate sparse branch=%s)" % (lname, xname, okret, bool(ifs_sparse)), fn.file, fn.line))
-    # ---- N3
-    rep.rule("N3", "dphi == d/dlambda |D dx(lambda)| in operator normal form")
-
-    def vec(e, depth=0):
-        if depth > 12:
-            raise ValueError("too deep")
-        if e[0] == "ref" and e[1] == xname:
-            return V(1, ())
-        if e[0] == "ref" and e[1] in locs:
-            return vec(locs[e[1]], depth + 1)
-        if e[0] == "neg":
-            v = vec(e[1], depth + 1)
-            return V(-v.sign, v.ops, v.norm)
-        if e[0] == "mcall" and e[2] == "cwiseProduct" and e[1][0] == "ref" and e[1][1] == "d" and len(e[4]) == 1:
-            v = vec(e[4][0], depth + 1)
-            return V(v.sign, ("D",) + v.ops, v.norm)
-        if e[0] == "mcall" and e[2] == "solve" and e[1][0] == "ref" and e[1][1] == lname and len(e[4]) == 1:
-            v = vec(e[4][0], depth + 1)
-            return V(v.sign, ("Hinv",) + v.ops, v.norm)
-        if e[0] == "mcall" and e[2] == "normalized" and not e[4]:
-            v = vec(e[1], depth + 1)
-            if v.norm is not None:
-                raise ValueError("double normalisation")
-            return V(v.sign, v.ops, v.ops)
-        raise ValueError("vector expression %s" % A.show(e)[:50])
-    dphi = None
-    for x in A.walk(b):
-        if x.get("kind") in ("BinaryOperator", "CXXOperatorCallExpr"):
-            e = A.to_expr(x)
-            if e[0] == "op" and e[1] == "=" and "dphi" in norm(e[2]):
-                dphi = (e[3], x)
-    ok3 = False
-    got = None
-    if dphi is not None and xname:
-        try:
-            e = dphi[0]
-            sign = 1
-            while e[0] == "neg":
-                sign, e = -sign, e[1]
-            if e[0] == "mcall" and e[2] == "dot" and len(e[4]) == 1:
-                a, c = vec(e[1]), vec(e[4][0])
-                sign *= a.sign * c.sign
-                # <A x, B x> with D, Hinv symmetric: move everything to one canonical word  D^p Hinv D^q  (one Hinv expected)
-                word = tuple(reversed(a.ops)) + c.ops
-                norms = [n for n in (a.norm, c.norm) if n is not None]
-                got = (sign, word, tuple(norms))
-                ok3 = got == (-1, ("D", "D", "Hinv", "D", "D"), (("D",),))
-        except ValueError as ex:
-            rep.broke("N3: cannot abstract dphi: %s" % ex)
-            return
-    rep.instance("N3", "solve_linear_ldlt", "dphi", ok=ok3, sample={"normal_form": str(got)})
-    if not ok3:
-        f, l = A.loc(dphi[1]) if dphi else (fn.file, fn.line)
-        rep.violation(Finding("N3", "solve_linear_ldlt", "dphi",
-                              "dphi has normal form %s; the derivative of |D dx(lambda)| is -<D^2 x, H^-1 D^2 x> / |D x|, i.e. (-1, (D,D,Hinv,D,D), (|D x|,))" % (got,), f, l))
-    # ---- N4
-    rep.rule("N4", "solve_trust_region: lambda = 1/Delta, returns {solve_linear_ldlt(J,d,r,lambda), lambda}")
+        return A.show(e).replace(" ", "")
     idx2 = A.index(d["solve_trust_region"])
     fns2 = [x for x in idx2 if x.kind in A.FUNCS and x.pattern and x.qname.split("::")[-1] == "solve_trust_region" and A.body(x.node) is not None]
     if len(fns2) != 1:
         rep.broke("solve_trust_region not found")
         return
     f2 = fns2[0]
+    ps = [p.get("name") for p in A.params(f2.node)]
     l2 = {}
     for x in A.walk(A.body(f2.node)):
         if x.get("kind") == "VarDecl" and A.kids(x):
             l2[x.get("name")] = A.to_expr(A.kids(x)[-1])
-    lam = next((n for n, e in l2.items() if _is_recip(e, "Delta")), None)
-    dx = next((n for n, e in l2.items() if e[0] == "call" and str(e[1]).split("::")[-1] == "solve_linear_ldlt"
-               and [norm(a) for a in e[2]] == ["J", "d", "r", lam]), None)
+
+    def resolve(e, depth=0):
+        while e[0] == "ref" and e[1] in l2 and depth < 8:
+            e = l2[e[1]]
+            depth += 1
+        return e
+
+    def is_lambda(e):
+        e = resolve(e)
+        try:
+            return pe.ev(e, {ps[3]: 4}) * 4 == 1 and pe.ev(e, {ps[3]: 7}) * 7 == 1
+        except pe.PEError:
+            return False
+
+    def is_dx(e):
+        e = resolve(e)
+        return (e[0] == "call" and str(e[1]).split("::")[-1].split("<")[0] == "solve_linear_ldlt" and len(e[2]) >= 4
+                and [norm(a) for a in e[2][:3]] == ps[:3] and is_lambda(e[2][3]))
     rets = [x for x in A.walk_nolambda(A.body(f2.node)) if x.get("kind") == "ReturnStmt"]
     okr = False
-    if len(rets) == 1:
+    if len(rets) == 1 and len(ps) == 4:
         e = A.to_expr(A.kids(rets[0])[0])
-        items = e[1] if e[0] == "init" else (e[2] if e[0] == "ctor" else [])
-        okr = len(items) == 2 and norm(items[0]) == (dx or "?") and norm(items[1]) == (lam or "?")
-    ok4 = bool(lam and dx and okr)
-    rep.instance("N4", "solve_trust_region", "lambda", ok=ok4, sample={"file": fe.rel(f2.file), "line": f2.line, "lambda": lam, "dx": dx})
-    if not ok4:
+        items = e[1] if e[0] == "init" else (e[2] if e[0] in ("ctor", "call") else [])
+        okr = len(items) == 2 and is_dx(items[0]) and is_lambda(items[1])
+    rep.instance("N4", "solve_trust_region", "lambda", ok=okr, sample={"file": fe.rel(f2.file), "line": f2.line})
+    if not okr:
         rep.violation(Finding("N4", "solve_trust_region", "lambda", "solve_trust_region is not {solve_linear_ldlt(J, d, r, 1/Delta), 1/Delta}", f2.file, f2.line))
 
 
-def _is_recip(e, name):
-    try:
-        return pe.ev(e, {name: 4}) * 4 == 1 and pe.ev(e, {name: 7}) * 7 == 1
-    except pe.PEError:
-        return False
+def check_n5(rep, d):
+    idx = A.index(d["colwise_norm"])
+    fns = [x for x in idx if x.kind in A.FUNCS and x.pattern and x.qname.split("::")[-1] == "colwise_norm" and A.body(x.node) is not None]
+    if len(fns) != 1:
+        rep.broke("N5: colwise_norm not found")
+        return
+    fn = fns[0]
+    M = A.params(fn.node)[0].get("name")
+    b = A.body(fn.node)
+    ifs = [x for x in A.kids(b) if x.get("kind") == "IfStmt" and "sparse" in A.ntext(A.kids(x)[0]).lower()]
+    if len(ifs) != 1 or len(A.kids(ifs[0])) != 3:
+        rep.broke("N5: colwise_norm is no longer `if constexpr (is_sparse) ... else ...`")
+        return
+    ks = A.kids(ifs[0])
+    sparse, dense = (ks[1], ks[2]) if not A.ntext(ks[0]).startswith("!") else (ks[2], ks[1])
+    # --- sparse branch
+    its = [v for v in A.walk(sparse) if v.get("kind") == "VarDecl" and "InnerIterator" in v.get("type", {}).get("qualType", "")]
+    problems = []
+    acc = []
+    for y in A.walk(sparse):
+        if y.get("kind") in ("CompoundAssignOperator", "CXXOperatorCallExpr", "BinaryOperator"):
+            e = A.to_expr(y)
+            if e[0] == "op" and e[1] == "+=":
+                acc.append((e, y))
+    if len(its) != 1 or len(acc) != 1:
+        rep.broke("N5: sparse branch has %d inner iterators and %d accumulations" % (len(its), len(acc)))
+        return
+    it = its[0].get("name")
+    e, node = acc[0]
+    tgt = e[2]
+    idxs = tgt[2] if tgt[0] == "call" else (tgt[4] if tgt[0] == "mcall" else (tgt[2] if tgt[0] == "sub" else None))
+    if tgt[0] == "mcall" and tgt[2] not in ("coeffRef", "operator()"):
+        idxs = None
+    if not idxs or len(idxs) != 1:
+        rep.broke("N5: accumulation target %s is not a single-index element" % A.show(tgt)[:40])
+        return
+    ix = idxs[0]
+    by_col = ix[0] == "mcall" and ix[1][0] == "ref" and ix[1][1] == it and ix[2] == "col" and not ix[4]
+    # value: (it.value())^2
+    def is_val(x):
+        return x[0] == "mcall" and x[1][0] == "ref" and x[1][1] == it and x[2] == "value" and not x[4]
+    v = e[3]
+    fpow2 = any(y.get("kind") == "CallExpr" and A.ntext(y).replace("detail::", "").startswith("fpow<2>(") for y in A.walk(node))
+    squared = ((v[0] == "call" and str(v[1]).split("::")[-1].split("<")[0] == "fpow" and fpow2 and len(v[2]) == 1 and is_val(v[2][0]))
+               or (v[0] == "op" and v[1] == "*" and is_val(v[2]) and is_val(v[3]))
+               or (v[0] == "call" and str(v[1]).split("::")[-1] in ("abs2", "norm") and len(v[2]) == 1 and is_val(v[2][0])))
+    txt = A.ntext(sparse)
+    rooted = "cwiseSqrt()" in txt or ".sqrt()" in txt
+    zeroed = "setZero(" in txt or "Zero(" in txt
+    ok = by_col and squared and rooted and zeroed
+    rep.instance("N5", "colwise_norm", "sparse", ok=ok, sample={"file": fe.rel(fn.file), "line": fn.line, "index": A.show(ix)})
+    if not ok:
+        f, l = A.loc(node)
+        why = []
+        if not by_col:
+            why.append("the accumulator is indexed by %s, which is the column only for one storage order; the column of the entry is %s.col()" % (A.show(ix), it))
+        if not squared:
+            why.append("the accumulated value %s is not the square of the entry" % A.show(v)[:40])
+        if not rooted:
+            why.append("no square root is taken")
+        if not zeroed:
+            why.append("the accumulator is not zero-initialised")
+        rep.violation(Finding("N5", "colwise_norm", "sparse", "; ".join(why), f, l))
+    # --- dense branch
+    dn = A.ntext(dense)
+    okd = ("%s.colwise().norm()" % M) in dn or ("%s.colwise().stableNorm()" % M) in dn
+    rep.instance("N5", "colwise_norm", "dense", ok=okd, sample={"text": dn[:80]})
+    if not okd:
+        if "rowwise()" in dn or "squaredNorm" in dn or "lpNorm" in dn:
+            rep.violation(Finding("N5", "colwise_norm", "dense", "the dense branch is `%s`, not the Euclidean norm of each column" % dn[:80], fn.file, fn.line))
+        else:
+            rep.broke("N5: dense branch `%s` not recognised" % dn[:80])
